@@ -1,6 +1,7 @@
 package c09
 
 import (
+	"bufio"
 	"bytes"
 	"context"
 	"encoding/json"
@@ -8,6 +9,8 @@ import (
 	"io"
 	"net/http"
 	"net/url"
+	"os"
+	"os/exec"
 	"reflect"
 	"strings"
 	"testing"
@@ -351,6 +354,14 @@ func runHostile(t *testing.T, c *engine.Check) {
 }
 
 func runHostilePass(t *testing.T, c *engine.Check, pt passT) {
+	e1, names := buildHostile(t, pt)
+	c.Extra("hostile_helpers", names)
+	c.RunE1(e1)
+}
+
+// buildHostile describes one pass of part (c); the child process used for
+// crash isolation builds the very same description.
+func buildHostile(t *testing.T, pt passT) (engine.E1, []string) {
 	shapes := pt.shapes
 	h0 := newHostPrep(t)
 	names := []string{}
@@ -377,14 +388,13 @@ func runHostilePass(t *testing.T, c *engine.Check, pt passT) {
 	sp := engine.Space{engine.Dim{Name: "helper", Vals: names}, engine.Dim{Name: "status", Vals: statusAlts}, engine.Dim{Name: "body", Vals: bodyAlts}}
 	first := len(sp)
 	sp = append(sp, slotDims(maxMembers(docs), shapes)...)
-	c.Extra("hostile_helpers", names)
 	groups := [][]string{{"helper", "status", "body"}}
 	if pt.pairs {
 		// pairs of member deviations of the 200 answer (status and body stay default)
 		groups = [][]string{{"helper"}}
 	}
 	{
-		c.RunE1(engine.E1{
+		return engine.E1{
 			Part:   pt.part,
 			Space:  sp,
 			Groups: groups,
@@ -404,6 +414,9 @@ func runHostilePass(t *testing.T, c *engine.Check, pt passT) {
 				if pt.pairs && dev < 2 {
 					return true // done by part "hostile"
 				}
+				if pt.pairs && hp.target == "discovery" && hp.name != "client.Discover" && hp.name != "rp.NewRelyingPartyOIDC" {
+					return true // the other constructors only call client.Discover and read two endpoints
+				}
 				if b := sp.Get(v, "body"); (b == "pending" || b == "slow_down") && hp.target != "token" {
 					return true
 				}
@@ -415,7 +428,7 @@ func runHostilePass(t *testing.T, c *engine.Check, pt passT) {
 				for i := range helpers {
 					wdocs[helpers[i].name] = docOf(h, &helpers[i])
 				}
-				return func(v engine.Vec) engine.Result {
+				inproc := func(v engine.Vec) engine.Result {
 					hp := byName[sp.Get(v, "helper")]
 					d := wdocs[hp.name]
 					if len(d.members) != len(refDocs[hp.name].members) {
@@ -490,7 +503,152 @@ func runHostilePass(t *testing.T, c *engine.Check, pt passT) {
 					}
 					return engine.OK(rule, outcome)
 				}
+				if os.Getenv("C09_CHILD") != "" {
+					return inproc
+				}
+				// Helpers whose work continues in a goroutine started by the library
+				// (remote JWKS download): a panic there cannot be recovered, so these
+				// executions run in a child process and a crash is read from its stderr.
+				var ch *childProc
+				return func(v engine.Vec) engine.Result {
+					hp := byName[sp.Get(v, "helper")]
+					if hp.target != "jwks" {
+						return inproc(v)
+					}
+					if ch == nil {
+						ch = startChild()
+					}
+					res, crash, err := ch.do(pt.part, sp.Describe(v))
+					if err != nil && crash == "" {
+						ch.kill()
+						ch = nil
+						return engine.Bad("harness", "child", "C09/harness-child/hostile", err.Error())
+					}
+					if crash != "" {
+						ch.kill()
+						ch = nil
+						_, dev := slotSkip(sp, v, first, refDocs[hp.name])
+						rule := "dev/" + hp.name
+						if sp.Get(v, "status") == "200" && sp.Get(v, "body") == "valid" && dev == 0 {
+							rule = "baseline-must-succeed/" + hp.name
+						}
+						first := crash
+						if i := strings.Index(first, "\n"); i > 0 {
+							first = first[:i]
+						}
+						return engine.Bad(rule, "crash", "C09/panic/"+site(crash), fmt.Sprintf("helper %s, provider answers %s / %s: unrecoverable %s in a goroutine started by the library; frames: %s",
+							hp.name, sp.Get(v, "status"), sp.Get(v, "body"), clip(first, 160), repoFrames(crash, 5)))
+					}
+					return res
+				}
 			},
-		})
+		}, names
+	}
+}
+
+// ---------------------------------------------------------------------------
+// child process for crash isolation
+
+type childProc struct {
+	cmd    *exec.Cmd
+	in     io.WriteCloser
+	out    *bufio.Reader
+	stderr *bytes.Buffer
+}
+
+type childReq struct {
+	Part string            `json:"part"`
+	Case map[string]string `json:"case"`
+}
+
+func startChild() *childProc {
+	cmd := exec.Command(os.Args[0], "-test.run", "^TestHostileChild$", "-test.timeout", "0", "-test.count", "1")
+	cmd.Env = append(os.Environ(), "C09_CHILD=1", "GOTRACEBACK=single")
+	in, err := cmd.StdinPipe()
+	if err != nil {
+		panic(err)
+	}
+	out, err := cmd.StdoutPipe()
+	if err != nil {
+		panic(err)
+	}
+	c := &childProc{cmd: cmd, in: in, out: bufio.NewReaderSize(out, 1<<16), stderr: &bytes.Buffer{}}
+	cmd.Stderr = c.stderr
+	if err := cmd.Start(); err != nil {
+		panic(err)
+	}
+	return c
+}
+
+func (c *childProc) kill() {
+	c.in.Close()
+	c.cmd.Process.Kill()
+	c.cmd.Wait()
+}
+
+const childPrefix = "C09RES "
+
+// do sends one case; crash is the child's stderr when it died.
+func (c *childProc) do(part string, desc map[string]string) (res engine.Result, crash string, err error) {
+	b, _ := json.Marshal(childReq{part, desc})
+	if _, err = c.in.Write(append(b, '\n')); err == nil {
+		for {
+			var line string
+			line, err = c.out.ReadString('\n')
+			if err != nil {
+				break
+			}
+			if strings.HasPrefix(line, childPrefix) {
+				err = json.Unmarshal([]byte(line[len(childPrefix):]), &res)
+				return res, "", err
+			}
+		}
+	}
+	// the child is gone: collect what it said
+	c.in.Close()
+	c.cmd.Wait()
+	out := c.stderr.String()
+	if i := strings.Index(out, "panic: "); i >= 0 {
+		return res, out[i:], err
+	}
+	if i := strings.Index(out, "fatal error: "); i >= 0 {
+		return res, out[i:], err
+	}
+	return res, "", fmt.Errorf("child ended without a panic report: %v; stderr: %s", err, clip(out, 400))
+}
+
+// TestHostileChild is the body of the child process (never selected by vcheck).
+func TestHostileChild(t *testing.T) {
+	if os.Getenv("C09_CHILD") == "" {
+		t.Skip("only as child of TestCheck")
+	}
+	workers := map[string]func(engine.Vec) engine.Result{}
+	spaces := map[string]engine.Space{}
+	sc := bufio.NewScanner(os.Stdin)
+	sc.Buffer(make([]byte, 1<<20), 1<<20)
+	w := bufio.NewWriter(os.Stdout)
+	for sc.Scan() {
+		var rq childReq
+		if err := json.Unmarshal(sc.Bytes(), &rq); err != nil {
+			t.Fatal(err)
+		}
+		if workers[rq.Part] == nil {
+			pt := passT{rq.Part, shapeNames(len(shapesAll)), 1, false}
+			if strings.HasSuffix(rq.Part, "-pairs") {
+				pt = passT{rq.Part, shapeNames(19), 2, true}
+			}
+			e1, _ := buildHostile(t, pt)
+			workers[rq.Part], spaces[rq.Part] = e1.NewWorker(0), e1.Space
+		}
+		v, err := spaces[rq.Part].FromDescription(rq.Case)
+		if err != nil {
+			t.Fatal(err)
+		}
+		res := workers[rq.Part](v)
+		b, _ := json.Marshal(res)
+		w.WriteString(childPrefix)
+		w.Write(b)
+		w.WriteByte('\n')
+		w.Flush()
 	}
 }
